@@ -274,7 +274,8 @@ func (c *Calcium) SetNode(ctx context.Context, opts *types.SetNodeOptions) (*typ
 				if len(opts.Resources) == 0 {
 					return nil
 				}
-				_, _, err = c.rmgr.SetNodeResourceCapacity(ctx, n.Name, nil, origin, false, plugins.Decr)
+				// origin is the capacity as it was (a node resource, not a request): write it back as such
+				_, _, err = c.rmgr.SetNodeResourceCapacity(ctx, n.Name, origin, nil, false, plugins.Incr)
 				return err
 			},
 			c.config.GlobalTimeout)
